@@ -478,8 +478,10 @@ func (ro *RedisOutput) sendRdb(pctx context.Context, reader ChannelReader) error
 			fullSyncProgress.Set(100*float64(rByte)/float64(nsize), ro.cfg.InputName)
 		}
 	}
+	// every worker has finished without an error : only then was the snapshot applied
+	replayed := false
 	defer func() {
-		if fullDone.Load() {
+		if fullDone.Load() && replayed {
 			rByte := readBytes.Load()
 			ro.logger.Infof("sync rdb process : cost(%v), total(%d), read(%d), progress(%3d%%), keys(%d), filtered(%d)",
 				time.Since(startTime), nsize, rByte, 100, ro.rdbSendCounterRt.Load(), ro.rdbFilterCounterRt.Load())
@@ -619,6 +621,7 @@ func (ro *RedisOutput) sendRdb(pctx context.Context, reader ChannelReader) error
 		ro.logger.Errorf("send rdb ERROR : runId(%s), offset(%d), size(%d), error(%v)", reader.RunId(), reader.Left(), reader.Size(), errs[0])
 		return err
 	}
+	replayed = true
 	ro.logger.Debugf("send rdb OK : runId(%s), offset(%d), size(%d)", reader.RunId(), reader.Left(), reader.Size())
 	if ro.bisyncEnabled() {
 		ro.bisyncOffset.Store(reader.Left())
